@@ -102,7 +102,7 @@ Definition table_as_expected : bool :=
                     | None => false
                     end) expected_table &&
   forallb (fun kv => mem_str (fst kv) public_classes) processors &&
-  forallb (fun kv => match assoc_str (snd kv) handlers with Some _ => true | None => false end)
+  forallb (fun kv => match assoc_str (snd kv) (handlers []) with Some _ => true | None => false end)
           processors.
 
 Lemma table_ok : table_as_expected = true.
@@ -112,9 +112,9 @@ Lemma keys_public : forallb (fun kv => mem_str (fst kv) public_classes) processo
 Proof. vm_compute. reflexivity. Qed.
 
 (* the handler that `process` runs for each event of a live processor *)
-Definition handler_spec (e : event) : state -> event -> result :=
+Definition handler_spec (rest : list event) (e : event) : state -> event -> result :=
   match e with
-  | RequestReceived _ => process_request_received
+  | RequestReceived _ => process_request_received rest
   | ResponseReceived _ => process_response_received
   | TrailersReceived _ => process_trailers_received
   | DataReceived _ _ _ => process_data_received
@@ -129,9 +129,9 @@ Definition handler_spec (e : event) : state -> event -> result :=
   | UnknownFrameReceived _ _ | OtherEvent _ => process_nop                      (* no table entry *)
   end.
 
-Lemma process_spec s e :
+Lemma process_spec rest s e :
   event_wf e = true ->
-  process s e = if st_closed s then Ok s else handler_spec e s e.
+  process rest s e = if st_closed s then Ok s else handler_spec rest e s e.
 Proof.
   intro W. unfold process. destruct (st_closed s); [reflexivity|].
   destruct e; try reflexivity.
@@ -186,12 +186,16 @@ Definition expected_shape : list (string * list string) :=
      ["if self.wrapper is not None"; "new StreamTerminatedError"; "call self.wrapper.cancel/1"; "endif"]);
     ("Stream.__ended__",
      ["call self.buffer.eof/0"]);
+    ("Stream.closable",
+     ["if self._transport.is_closing()"; "call self._transport.is_closing/0"; "return"; "endif"; "if self._h2_connection.state_machine.state is ConnectionState.CLOSED"; "return"; "endif"; "call self._h2_connection.streams.get/1"; "if stream is None"; "return"; "endif"; "return"]);
+    ("Stream.reset_nowait",
+     ["call self._h2_connection.reset_stream/2"; "if self.connection.write_ready.is_set()"; "call self.connection.write_ready.is_set/0"; "call self._h2_connection.data_to_send/0"; "call self._transport.write/1"; "endif"]);
     ("H2Protocol.data_received",
-     ["try"; "call self.connection.feed/1"; "except ProtocolError"; "log"; "call self.processor.close/1"; "else"; "call self.connection.flush/0"; "for events"; "call self.processor.process/1"; "endfor"; "call self.connection.flush/0"; "endtry"]);
+     ["try"; "call self.connection.feed/1"; "except (ProtocolError, UnicodeDecodeError)"; "log"; "call self.processor.close/1"; "else"; "call self.connection.flush/0"; "for events"; "call self.processor.process/1"; "endfor"; "call self.connection.flush/0"; "endtry"]);
     ("H2Protocol.connection_lost",
      ["call self.processor.close/1"]);
     ("client.Handler.accept",
-     ["raise NotImplementedError"]);
+     ["if stream.closable"; "call stream.reset_nowait/1"; "endif"; "call release_stream/0"]);
     ("client.Handler.cancel",
      ["pass"]);
     ("client.Handler.close",
@@ -353,10 +357,23 @@ Proof.
 Qed.
 
 (* ------------------------------------------------------------------------------------------ *)
-(* one event never raises: client (no RequestReceived) and server (no repeated StreamReset) *)
+(* one event never raises: client (every event) and server (no repeated StreamReset) *)
 
-Definition no_request (e : event) : bool :=
-  match e with RequestReceived _ => false | _ => true end.
+(* Stream.closable is exactly what h2.reset_stream needs: when it holds, the reset cannot raise *)
+Lemma closable_reset_ok rest s sid : closable rest s sid = true -> h2_reset_stream rest sid = None.
+Proof.
+  unfold closable, h2_reset_stream. intro H.
+  apply andb_true_iff in H. destruct H as [H H3]. apply andb_true_iff in H. destruct H as [_ H2].
+  apply negb_true_iff in H2. apply negb_true_iff in H3. rewrite H2, H3. reflexivity.
+Qed.
+
+Lemma client_accept_ok rest s sid :
+  (if closable rest s sid then reset_nowait rest s sid else Ok s) =
+  Ok (if closable rest s sid then add_rst s sid else s).
+Proof.
+  destruct (closable rest s sid) eqn:CL; [|reflexivity].
+  unfold reset_nowait. rewrite (closable_reset_ok _ _ _ CL). reflexivity.
+Qed.
 
 Lemma conn_ack_ok s sid fcl :
   inv_b s = true -> st_closed s = false -> 0 < sid -> 0 <= fcl ->
@@ -374,15 +391,22 @@ Ltac good_tac := unfold good, inv_b in *; simpl; tauto.
 Lemma close_conn_good ro why s : st_role s = ro -> good ro (close_conn why s).
 Proof. intro R. unfold good, inv_b. simpl. auto. Qed.
 
-Lemma client_event_total s e :
-  good Client s -> event_wf e = true -> no_request e = true ->
-  exists s', process s e = Ok s' /\ good Client s'.
+Lemma release_good ro s sid : good ro s -> good ro (release s sid).
+Proof. intro G. unfold release. destruct (lookup sid (st_reg s)); good_tac. Qed.
+
+Lemma client_event_total rest s e :
+  good Client s -> event_wf e = true ->
+  exists s', process rest s e = Ok s' /\ good Client s'.
 Proof.
-  intros G W NR. rewrite (process_spec s e W).
+  intros G W. rewrite (process_spec rest s e W).
   destruct (st_closed s) eqn:C; [eauto|].
   destruct G as [R I].
-  destruct e; simpl in NR; try discriminate; simpl handler_spec; unfold process_nop;
+  destruct e; simpl handler_spec; unfold process_nop;
     try (eexists; split; [reflexivity| good_tac]).
+  - (* Request: registered, refused (reset only if closable), released *)
+    unfold process_request_received. simpl. rewrite R, client_accept_ok.
+    eexists; split; [reflexivity|]. apply release_good.
+    destruct (closable rest _ sid); good_tac.
   - (* Response *) unfold process_response_received. simpl.
     destruct (lookup sid (st_reg s)); eexists; (split; [reflexivity|good_tac]).
   - (* Trailers *) unfold process_trailers_received. simpl.
@@ -407,12 +431,12 @@ Qed.
 Definition sgood (seen : list Z) (s : state) : Prop :=
   good Server s /\ kinv seen (st_h s) (keys (st_reg s)).
 
-Lemma server_event_total seen s e :
+Lemma server_event_total rest seen s e :
   sgood seen s -> event_wf e = true ->
   (forall x, In x (reset_id e) -> ~ In x seen) ->
-  exists s', process s e = Ok s' /\ sgood (seen ++ reset_id e) s'.
+  exists s', process rest s e = Ok s' /\ sgood (seen ++ reset_id e) s'.
 Proof.
-  intros [G K] W ND. rewrite (process_spec s e W).
+  intros [G K] W ND. rewrite (process_spec rest s e W).
   assert (K' : kinv (seen ++ reset_id e) (st_h s) (keys (st_reg s))) by (apply kinv_seen_app; exact K).
   destruct (st_closed s) eqn:C; [exists s; split; [reflexivity|split; assumption]|].
   destruct G as [R I].
@@ -479,14 +503,13 @@ Qed.
 Definition resets_ev (evs : list event) : list Z := flat_map reset_id evs.
 
 Lemma client_events_total evs : forall s,
-  good Client s -> forallb event_wf evs = true -> forallb no_request evs = true ->
+  good Client s -> forallb event_wf evs = true ->
   exists s', run_events s evs = Ok s' /\ good Client s'.
 Proof.
-  induction evs as [|e r IH]; intros s G W NR; simpl.
+  induction evs as [|e r IH]; intros s G W; simpl.
   - eauto.
-  - simpl in W, NR. apply andb_true_iff in W. destruct W as [W1 W2].
-    apply andb_true_iff in NR. destruct NR as [N1 N2].
-    destruct (client_event_total s e G W1 N1) as [s1 [E G1]]. rewrite E. auto.
+  - simpl in W. apply andb_true_iff in W. destruct W as [W1 W2].
+    destruct (client_event_total r s e G W1) as [s1 [E G1]]. rewrite E. auto.
 Qed.
 
 Lemma server_events_total evs : forall seen s,
@@ -499,17 +522,45 @@ Proof.
     unfold resets_ev in *. simpl in ND.
     assert (D : forall x, In x (reset_id e) -> ~ In x seen).
     { intros x Hx Hs. apply (NoDup_app_disj _ _ x ND Hs). apply in_or_app. auto. }
-    destruct (server_event_total seen s e G W1 D) as [s1 [E G1]]. rewrite E.
+    destruct (server_event_total r seen s e G W1 D) as [s1 [E G1]]. rewrite E.
     rewrite app_assoc in ND. destruct (IH _ s1 G1 W2 ND) as [s2 [E2 G2]].
     exists s2. split; auto. simpl. rewrite app_assoc. exact G2.
 Qed.
 
+(* running a PREFIX of a batch: its events are processed while h2 has already digested `tail`,
+   the rest of the batch (run_events = run_events_in []) *)
+Fixpoint run_events_in (tail : list event) (s : state) (evs : list event) : result :=
+  match evs with
+  | [] => Ok s
+  | e :: r => match process (r ++ tail) s e with
+              | Ok s1 => run_events_in tail s1 r
+              | Raises x => Raises x
+              end
+  end.
+
+Lemma run_events_in_nil evs : forall s, run_events_in [] s evs = run_events s evs.
+Proof.
+  induction evs as [|e r IH]; intro s; simpl; auto.
+  rewrite app_nil_r. destruct (process r s e); auto.
+Qed.
+
+Lemma run_events_in_app tail pre post : forall s,
+  run_events_in tail s (pre ++ post) =
+  match run_events_in (post ++ tail) s pre with
+  | Ok s1 => run_events_in tail s1 post
+  | Raises x => Raises x
+  end.
+Proof.
+  induction pre as [|e r IH]; intro s; simpl; auto.
+  rewrite <- app_assoc. destruct (process (r ++ post ++ tail) s e); auto.
+Qed.
+
 Lemma run_events_app s pre post :
   run_events s (pre ++ post) =
-  match run_events s pre with Ok s1 => run_events s1 post | Raises x => Raises x end.
+  match run_events_in post s pre with Ok s1 => run_events s1 post | Raises x => Raises x end.
 Proof.
-  revert s. induction pre as [|e r IH]; intro s; simpl; auto.
-  destruct (process s e); auto.
+  rewrite <- !run_events_in_nil, run_events_in_app, app_nil_r.
+  destruct (run_events_in post s pre); auto. apply run_events_in_nil.
 Qed.
 
 Lemma closed_ignores_all evs : forall s, st_closed s = true -> run_events s evs = Ok s.
@@ -521,16 +572,15 @@ Qed.
 (* ------------------------------------------------------------------------------------------ *)
 (* whole histories (events interleaved with everything else that touches the state) *)
 
-Definition no_request_input (i : input) : bool := forallb no_request (events_of i).
-
 Lemma client_step_total s i :
-  good Client s -> input_wf i = true -> no_request_input i = true ->
+  good Client s -> input_wf i = true ->
   exists s', step s i = Ok s' /\ good Client s'.
 Proof.
-  intros G W NR. destruct G as [R I].
+  intros G W. destruct G as [R I].
   assert (G : good Client s) by (split; assumption).
   destruct i; simpl.
   - destruct (st_tclosed s); [eauto|]. destruct b; simpl.
+    + eexists; split; [reflexivity|]. apply close_conn_good; exact R.
     + eexists; split; [reflexivity|]. apply close_conn_good; exact R.
     + apply client_events_total; assumption.
   - eexists; split; [reflexivity|]. apply close_conn_good; exact R.
@@ -544,13 +594,12 @@ Proof.
 Qed.
 
 Lemma client_history_total h : forall s,
-  good Client s -> forallb input_wf h = true -> forallb no_request_input h = true ->
+  good Client s -> forallb input_wf h = true ->
   exists s', run s h = Ok s' /\ good Client s'.
 Proof.
-  induction h as [|i r IH]; intros s G W NR; simpl; [eauto|].
-  simpl in W, NR. apply andb_true_iff in W. destruct W as [W1 W2].
-  apply andb_true_iff in NR. destruct NR as [N1 N2].
-  destruct (client_step_total s i G W1 N1) as [s1 [E G1]]. rewrite E. auto.
+  induction h as [|i r IH]; intros s G W; simpl; [eauto|].
+  simpl in W. apply andb_true_iff in W. destruct W as [W1 W2].
+  destruct (client_step_total s i G W1) as [s1 [E G1]]. rewrite E. auto.
 Qed.
 
 Lemma resets_of_cons i h : resets_of (i :: h) = resets_ev (events_of i) ++ resets_of h.
@@ -567,6 +616,9 @@ Proof.
   - destruct (st_tclosed s) eqn:T.
     { exists s. split; auto. split; auto. apply kinv_seen_app. exact K. }
     destruct b; simpl in *; rewrite ?app_nil_r in *.
+    + eexists; split; [reflexivity|]. split; [apply close_conn_good; exact R|].
+      simpl. rewrite R. simpl. rewrite keys_map_reg. intros k Hk. rewrite has_live_close.
+      destruct (K k Hk) as [H|H]; auto.
     + eexists; split; [reflexivity|]. split; [apply close_conn_good; exact R|].
       simpl. rewrite R. simpl. rewrite keys_map_reg. intros k Hk. rewrite has_live_close.
       destruct (K k Hk) as [H|H]; auto.
@@ -642,12 +694,12 @@ Proof.
   exists s'. split; auto. split; auto. apply sinv_iff. exact K.
 Qed.
 
-Lemma client_total_partial :
-  forall h, forallb input_wf h = true -> forallb no_request_input h = true ->
+Lemma client_total :
+  forall h, forallb input_wf h = true ->
   exists s', run (init Client) h = Ok s' /\ inv_b s' = true.
 Proof.
-  intros h W NR.
-  destruct (client_history_total h (init Client) (init_good Client) W NR) as [s' [E [R I]]].
+  intros h W.
+  destruct (client_history_total h (init Client) (init_good Client) W) as [s' [E [R I]]].
   eauto.
 Qed.
 
@@ -665,33 +717,71 @@ Proof.
   - eexists; split; [reflexivity|]. split; [reflexivity|]. apply sinv_iff. simpl.
     rewrite R. simpl. rewrite keys_map_reg, app_nil_r. intros k Hk. rewrite has_live_close.
     destruct (K k Hk) as [H|H]; auto.
+  - eexists; split; [reflexivity|]. split; [reflexivity|]. apply sinv_iff. simpl.
+    rewrite R. simpl. rewrite keys_map_reg, app_nil_r. intros k Hk. rewrite has_live_close.
+    destruct (K k Hk) as [H|H]; auto.
   - destruct (server_events_total evs seen s SG W ND) as [s' [E [[R' I'] K']]].
     exists s'. split; auto. split; auto. apply sinv_iff. exact K'.
 Qed.
 
 Lemma client_batch_total :
   forall s b, st_role s = Client -> inv_b s = true ->
-  input_wf (IData b) = true -> no_request_input (IData b) = true ->
+  input_wf (IData b) = true ->
   exists s', data_received s b = Ok s' /\ inv_b s' = true.
 Proof.
-  intros s b R I W NR. destruct b; simpl in *.
+  intros s b R I W. destruct b; simpl in *.
   - eexists; split; reflexivity.
-  - destruct (client_events_total evs s (conj R I) W NR) as [s' [E [R' I']]]. eauto.
+  - eexists; split; reflexivity.
+  - destruct (client_events_total evs s (conj R I) W) as [s' [E [R' I']]]. eauto.
+Qed.
+
+(* a stream opened by the peer towards a client is refused and leaves no trace: nothing a call can
+   observe changes except the slot-waiter wake-up; the RST_STREAM is sent exactly when the stream
+   is still closable *)
+Lemma lookup_upd_same sid v l : lookup sid (upd sid v l) = Some v.
+Proof.
+  induction l as [|[k w] r IH]; simpl.
+  - rewrite Z.eqb_refl. reflexivity.
+  - destruct (k =? sid) eqn:E; simpl; rewrite E; auto.
+Qed.
+
+Lemma remove_upd_absent sid v l : lookup sid l = None -> remove sid (upd sid v l) = l.
+Proof.
+  induction l as [|[k w] r IH]; simpl; intro L.
+  - rewrite Z.eqb_refl. reflexivity.
+  - destruct (k =? sid) eqn:E; [discriminate|]. simpl. rewrite E. f_equal. auto.
+Qed.
+
+Lemma client_request_refused rest s sid :
+  st_role s = Client -> st_closed s = false -> lookup sid (st_reg s) = None ->
+  exists s', process rest s (RequestReceived sid) = Ok s' /\
+    st_reg s' = st_reg s /\ st_h s' = st_h s /\ st_closed s' = false /\
+    st_tclosed s' = st_tclosed s /\ st_ping s' = st_ping s /\ st_credit s' = st_credit s /\
+    st_waiter s' = true /\
+    st_rst s' = st_rst s ++ (if closable rest s sid then [sid] else []).
+Proof.
+  intros R C L. rewrite process_spec by reflexivity. rewrite C. simpl.
+  unfold process_request_received. simpl. rewrite R, client_accept_ok.
+  eexists; split; [reflexivity|].
+  assert (CL : closable rest (set_reg s (upd sid (fresh_srec false) (st_reg s))) sid = closable rest s sid)
+    by reflexivity.
+  rewrite CL. unfold release.
+  destruct (closable rest s sid); simpl; rewrite lookup_upd_same; simpl;
+    rewrite (remove_upd_absent _ _ _ L), ?app_nil_r; repeat split; auto.
 Qed.
 
 (* ------------------------------------------------------------------------------------------ *)
 (* refutations of the unrestricted statements (witnesses; replayed on the real code by the driver) *)
 
-(* FULL-STRENGTH STATEMENT (false):  forall h, forallb input_wf h = true ->
-     exists s', run (init Client) h = Ok s'.
-   A server peer that opens a stream towards a grpclib client makes h2 emit RequestReceived, and
-   client.Handler.accept raises NotImplementedError out of data_received. *)
+(* (the client statement used to be refuted here: RequestReceived -> NotImplementedError, D21, and then
+   h2.reset_stream raising on an already closed connection / stream; both repaired in /repo, the
+   former witnesses are now Examples of histories that do not raise) *)
 Definition client_witness : list input :=
   [IRegister 1; IData (H2Events [RequestReceived 2])].
-
-Lemma client_total_refuted :
-  exists h, forallb input_wf h = true /\ run (init Client) h = Raises ENotImplemented.
-Proof. exists client_witness. split; vm_compute; reflexivity. Qed.
+Definition client_witness_goaway : list input :=
+  [IRegister 1; IData (H2Events [RequestReceived 2; ConnectionTerminated 0])].
+Definition client_witness_reset : list input :=
+  [IRegister 1; IData (H2Events [RequestReceived 2; StreamReset 2 8 true])].
 
 (* FULL-STRENGTH STATEMENT (false without the h2 discipline):  forall h, forallb input_wf h = true ->
      exists s', run (init Server) h = Ok s'.
@@ -715,9 +805,9 @@ Definition tolerated (e : event) : bool :=
   | _ => false
   end.
 
-Lemma tolerated_ignored s e : tolerated e = true -> event_wf e = true -> process s e = Ok s.
+Lemma tolerated_ignored rest s e : tolerated e = true -> event_wf e = true -> process rest s e = Ok s.
 Proof.
-  intros T W. rewrite (process_spec s e W). destruct (st_closed s); [reflexivity|].
+  intros T W. rewrite (process_spec rest s e W). destruct (st_closed s); [reflexivity|].
   destruct e; simpl in T; try discriminate; reflexivity.
 Qed.
 
@@ -730,8 +820,8 @@ Proof.
 Qed.
 
 (* PING ack: only the keepalive close timer is touched *)
-Lemma ping_ack_only_timer s :
-  process s PingAckReceived = Ok (if st_closed s then s else set_ping s false).
+Lemma ping_ack_only_timer rest s :
+  process rest s PingAckReceived = Ok (if st_closed s then s else set_ping s false).
 Proof. rewrite process_spec by reflexivity. destruct (st_closed s); reflexivity. Qed.
 
 (* an event addressed to a stream that is not (no longer) registered *)
@@ -759,10 +849,10 @@ Definition returned_credit (s : state) (e : event) : list (Z * Z) :=
 Lemma unregistered_tolerated s e sid :
   inv_b s = true -> event_wf e = true ->
   stream_addressed e = Some sid -> lookup sid (st_reg s) = None ->
-  exists s', process s e = Ok s' /\ same_calls s s' /\
+  exists s', process rest s e = Ok s' /\ same_calls s s' /\
              st_credit s' = st_credit s ++ returned_credit s e.
 Proof.
-  intros I W A L. rewrite (process_spec s e W). unfold returned_credit.
+  intros I W A L. rewrite (process_spec rest s e W). unfold returned_credit.
   destruct (st_closed s) eqn:C.
   { exists s. split; auto. split; [unfold same_calls; tauto|].
     destruct e; simpl; rewrite ?app_nil_r; reflexivity. }
@@ -838,10 +928,10 @@ Ltac split_match :=
 
 (* the only event that closes a live processor is ConnectionTerminated, and it closes everything *)
 Lemma only_goaway_closes s e s1 :
-  event_wf e = true -> process s e = Ok s1 -> st_closed s = false -> st_closed s1 = true ->
+  event_wf e = true -> process rest s e = Ok s1 -> st_closed s = false -> st_closed s1 = true ->
   exists c, e = ConnectionTerminated c /\ s1 = close_conn (RGoaway c) s.
 Proof.
-  intros W P C C1. rewrite (process_spec s e W), C in P.
+  intros W P C C1. rewrite (process_spec rest s e W), C in P.
   destruct e; simpl in P;
     unfold process_nop, process_request_received, process_response_received,
       process_trailers_received, process_data_received, process_window_updated,
@@ -863,7 +953,7 @@ Proof.
   induction evs as [|e r IH]; intros s s' W P C C'; simpl in P.
   - inversion P; subst. congruence.
   - simpl in W. apply andb_true_iff in W. destruct W as [W1 W2].
-    destruct (process s e) as [s1|x] eqn:E; [|discriminate].
+    destruct (process rest s e) as [s1|x] eqn:E; [|discriminate].
     destruct (st_closed s1) eqn:C1.
     + destruct (only_goaway_closes s e s1 W1 E C C1) as [c [-> ->]].
       rewrite closed_ignores_all in P by reflexivity. inversion P; subst.
